@@ -313,13 +313,53 @@ Definition sample_history : list kreq :=
    KTxn (q_delete kB (UMod 15) 0);                   (* missing key *)
    KRead (list_req kLo kHi 0)].
 
-Lemma sample_in_scope : in_scope_run (b_init 10) (e_init 10) sample_history.
-Proof.
-  cbn [in_scope_run sample_history]. unfold bounded, txn_in_scope, two63.
+Ltac scope_tac :=
   repeat match goal with
          | |- _ /\ _ => split
          | |- True => exact I
-         end; try (vm_compute; intuition congruence; fail); try (cbn; lia); try discriminate.
-  all: try (vm_compute; repeat split; intros; discriminate).
-  all: try (constructor; try discriminate; try reflexivity; vm_compute; auto; try (right; intros; discriminate); try (left; intros; discriminate)).
+         | |- read_in_scope _ _ => first [apply RsGet | apply RsList | apply RsCount]
+         | |- _ \/ _ => first [left; vm_compute; intros; discriminate | right; vm_compute; intros; discriminate]
+         | |- _ = _ => reflexivity
+         | |- _ -> False => let H := fresh in intros H; discriminate H
+         | |- _ <> _ => let H := fresh in intros H; discriminate H
+         | |- (_ < _)%Z => vm_compute; reflexivity
+         | |- (_ <= _)%Z => vm_compute; intros; discriminate
+         end.
+
+Lemma sample_in_scope : in_scope_run (b_init 10) (e_init 10) sample_history.
+Proof. vm_compute. scope_tac. Qed.
+
+(* ------------------------------------------------------------------ the full statements and their refutation *)
+
+Definition shape_request (t : txn_req) : Prop := exists sh, canonical t = Some sh /\ shape_key sh <> [].
+
+(* every request of one of the four shapes with an expected revision between zero and the current one *)
+Definition supported_full_statement : Prop :=
+  forall sb se t, R sb se -> bounded sb -> shape_request t ->
+    (forall sh, canonical t = Some sh -> 0 <= shape_exp sh <= Z.of_N (b_rev sb)) ->
+    sim_ok t sb se.
+
+Lemma supported_full_refuted : ~ supported_full_statement.
+Proof.
+  intros H.
+  specialize (H (b_init 10) (e_init 10) (q_deleteu kA 0) (R_init 10)).
+  assert (Hb : bounded (b_init 10)) by (unfold bounded, two63; cbn; lia).
+  assert (Hs : shape_request (q_deleteu kA 0)) by (exists (ShDeleteU kA); split; [reflexivity|discriminate]).
+  specialize (H Hb Hs). destruct H as [Hp _].
+  - intros sh [= <-]. cbn. lia.
+  - vm_compute in Hp. discriminate Hp.
+Qed.
+
+Definition unsupported_full_statement : Prop :=
+  forall sb se t, R sb se -> bounded sb -> txn_wf t = true -> fields_ok t -> rejected t sb se \/ sim_ok t sb se.
+
+Lemma unsupported_full_refuted : ~ unsupported_full_statement.
+Proof.
+  intros H.
+  set (t := mkTxn [q_cmp kB (UMod 0)] [q_put kA v2 0] [q_get kB 0]).
+  assert (Hb : bounded (b_init 10)) by (unfold bounded, two63; cbn; lia).
+  destruct (H (b_init 10) (e_init 10) t (R_init 10) Hb eq_refl I) as [[Hr _]|[_ [_ [HR _]]]].
+  - vm_compute in Hr. discriminate Hr.
+  - (* the shim wrote /b, the interpreter wrote /a *)
+    pose proof (R_kv _ _ HR kA) as Hk. vm_compute in Hk. discriminate Hk.
 Qed.
